@@ -276,3 +276,30 @@ pub fn intern(s: &str) -> &'static str {
 
 pub type FX = exmex::FlatEx<Sym, SymOps, SymMatcher>;
 pub type DX<'a> = exmex::DeepEx<'a, Sym, SymOps, SymMatcher>;
+
+/// inverse of `table_desc` (used by --replay)
+pub fn parse_table_desc(desc: &str) -> Option<Table> {
+    let mut t = vec![];
+    for item in desc.split(' ').filter(|x| !x.is_empty()) {
+        // name may itself contain ':'? operator names used by the generators never do
+        let mut parts = item.split(':');
+        let name = intern(parts.next()?);
+        let mut o = OpSpec { name, bin: None, un: None, constant: None };
+        for p in parts {
+            if let Some(c) = p.strip_prefix('=') {
+                o.constant = Some(c.parse().ok()?);
+            } else if let Some(b) = p.strip_prefix('b') {
+                let pi = b.find('p')?;
+                let slot: u8 = b[..pi].parse().ok()?;
+                let rest = &b[pi + 1..];
+                let comm = rest.ends_with('c');
+                let prio: i64 = rest.trim_end_matches('c').parse().ok()?;
+                o.bin = Some(BinSpec { slot, prio, comm });
+            } else if let Some(u) = p.strip_prefix('u') {
+                o.un = Some(u.parse().ok()?);
+            }
+        }
+        t.push(o);
+    }
+    Some(t)
+}
